@@ -22,6 +22,9 @@ Checked: xl <= soln.x <= xu exactly, soln.obj == ||A soln.x - b||^2 (relative 1e
 soln.flag == 0.  The oracle's own optimality is verified by its KKT residual (instances where it is not accurate to
 1e-10 are skipped and counted).
 """
+import json
+import os
+
 import numpy as np
 
 import core
@@ -184,7 +187,7 @@ def check_instance(inst, soln):
         return "skip:oracle-worse-than-dfols", info
     if int(soln.flag) != 0:
         info["what"] = "optimal point found (gap %.2e) but flag = %d ('%s'), not success" % (gap, int(soln.flag), info["msg"])
-        return "fail:C05:flag-not-success:flag=%d:%s" % (int(soln.flag), cls), info
+        return "fail:C05:flag-not-success:flag=%d" % int(soln.flag), info
     return "ok", info
 
 
@@ -318,13 +321,29 @@ def correspondence(ctx):
 # ----------------------------------------------------------------------------------------------
 # search
 # ----------------------------------------------------------------------------------------------
+CORPUS_DIR = os.path.join(core.VERIF, "corpus", "C05")
+
+
+def corpus_cases():
+    """stored past failing inputs (seed of the generator + nmax), replayed first on every run"""
+    out = []
+    if os.path.isdir(CORPUS_DIR):
+        for fn in sorted(os.listdir(CORPUS_DIR)):
+            if fn.endswith(".json"):
+                d = json.load(open(os.path.join(CORPUS_DIR, fn)))
+                out.append((fn, d["seed"], d["nmax"]))
+    return out
+
+
 def search(ctx):
     dfols = core.import_dfols()
     ninst = ctx.scale(200, 3000) * getattr(ctx, "boost", 1)
     counts, gaps, nfs = {}, [], []
-    for i in range(ninst):
-        rng = np.random.default_rng([ctx.seed, SUITE, i])
-        inst = Instance(rng, nmax=ctx.scale(5, 8))
+    cases = [("corpus:" + fn, seed, nmax) for fn, seed, nmax in corpus_cases()]
+    cases += [(i, [ctx.seed, SUITE, i], ctx.scale(5, 8)) for i in range(ninst)]
+    for i, seed, nmax in cases:
+        rng = np.random.default_rng(seed)
+        inst = Instance(rng, nmax=nmax)
         soln = inst.solve(dfols)
         status, info = check_instance(inst, soln)
         ctx.seen(("c05", i, inst.describe()))
@@ -337,14 +356,14 @@ def search(ctx):
             nfs.append(info["nf"])
             counts["flag_%d" % info["flag"]] = counts.get("flag_%d" % info["flag"], 0) + 1
         if status.startswith("fail:"):
-            ctx.fail(status[5:], info.get("what", status), {"seed": [ctx.seed, SUITE, i], "nmax": ctx.scale(5, 8), "instance": inst.describe(),
+            ctx.fail(status[5:], info.get("what", status), {"seed": list(seed), "nmax": nmax, "case": str(i), "instance": inst.describe(),
                                                              "A": inst.A.tolist(), "b": inst.b.tolist(), "x0": inst.x0.tolist(),
                                                              "bounds": None if inst.bounds is None else [inst.bounds[0].tolist(), inst.bounds[1].tolist()]})
             if len(ctx.failures) >= 8:
                 break
         elif status == "ok" and len(ctx.samples) < 3:
             ctx.add_sample({"kind": "C05 instance", "instance": inst.describe(), "f_star": info["fstar"], "soln.obj": info["obj"], "nf": info["nf"], "flag": info["flag"]})
-    ctx.cov["search"] = {"instances": ninst, "counts": dict(sorted(counts.items())),
+    ctx.cov["search"] = {"instances": ninst, "corpus_cases": len(cases) - ninst, "counts": dict(sorted(counts.items())),
                          "gap_over_1e-6(1+fstar)": ic.summary(gaps), "nf": ic.summary(nfs)}
 
 
